@@ -43,7 +43,8 @@ def execute(case, extra_monitors=(), exc_allow=(), replay=None, phases=(),
     try:
         w.setup()
         for d in definitions_of(case):
-            w.define(d['text'], d.get('kind', 'wf'))
+            w.define(d['text'], d.get('kind', 'wf'),
+                     namespace=d.get('namespace', ''))
         if setup_hook:
             setup_hook(w)
         for p in plan:
@@ -55,6 +56,7 @@ def execute(case, extra_monitors=(), exc_allow=(), replay=None, phases=(),
         if wf_input is None and P:
             wf_input = dict(P.get('input') or {})
         w.start(wf_name, wf_input, wf_ex_id=st.get('wf_ex_id'),
+                wf_namespace=st.get('namespace', ''),
                 **(st.get('params') or {}))
         ph = list(phases)
         if auto_resume:
